@@ -1,7 +1,12 @@
 (* C03 — property theorems only (each closed by [exact]) + Print Assumptions.
-   The crash/recovery theorems over Scorch/Disk.v are added by Scorch/ProofsDisk*.v. *)
+   The crash/recovery theorems are about Scorch/Disk.v ([dstate], [dstep], [drun]) and hold for
+   EVERY event list accepted by [drun] from [dinit]: any interleaving of core events, file
+   writes, prepares, commits, acks, purges, zap removals, copies, crashes, recoveries, rollbacks.
+   [eff evs] = the batches in effect after [evs]: appended at every EIntroduce, truncated at every
+   DRecover to the batches the newest committed record covers (mirrors DiskCorr.x_eff). *)
 From Coq Require Import ZArith List.
-From Verif Require Import Scorch.Model Scorch.ProofsCore.
+From Verif Require Import Scorch.Model Scorch.ProofsCore Scorch.Disk
+  Scorch.ProofsDisk1 Scorch.ProofsDisk4 Scorch.ProofsDisk5 Scorch.ProofsDisk8 Scorch.ProofsDisk9.
 Import ListNotations.
 Local Open Scope Z_scope.
 
@@ -12,3 +17,135 @@ Theorem C03_published_roots_are_prefixes :
   forall r k, In (r, k) pub -> forall d, root_lookup r d = replay (firstn k (batches_of evs)) d.
 Proof. exact reader_view_is_prefix. Qed.
 Print Assumptions C03_published_roots_are_prefixes.
+
+(* I4: every committed record is the replay of a whole-batch prefix of the batches in effect,
+   and every file it names is complete *)
+Theorem C03_record_is_prefix : forall evs d,
+  drun dinit evs = Some d ->
+  forall r, In r (d_bolt d) ->
+  (exists rr k, rec_root (d_segdocs d) (br_segs r) = Some rr
+     /\ assocZ (br_epoch r) (d_nb d) = Some k
+     /\ (k <= length (eff evs))%nat
+     /\ forall id, root_lookup rr id = replay (firstn k (eff evs)) id)
+  /\ (forall id, In id (named_by r) -> In id (d_files d)).
+Proof. exact record_is_prefix. Qed.
+Print Assumptions C03_record_is_prefix.
+
+Theorem C03_records_monotone : forall evs d,
+  drun dinit evs = Some d ->
+  bsorted (d_bolt d)
+  /\ forall r1 r2 k1 k2, In r1 (d_bolt d) -> In r2 (d_bolt d) -> br_epoch r1 <= br_epoch r2 ->
+       assocZ (br_epoch r1) (d_nb d) = Some k1 -> assocZ (br_epoch r2) (d_nb d) = Some k2 ->
+       (k1 <= k2)%nat.
+Proof. exact records_monotone. Qed.
+Print Assumptions C03_records_monotone.
+
+(* a crash at any point followed by recovery yields a whole-batch prefix: never part of a batch *)
+Theorem C03_crash_recovers_prefix : forall evs d,
+  drun dinit evs = Some d ->
+  forall d1 d2, dstep d DCrash = Some d1 -> dstep d1 DRecover = Some d2 ->
+  forall id, root_lookup (root (d_core d2)) id = replay (firstn (covered d) (eff evs)) id.
+Proof. exact crash_recovers_prefix. Qed.
+Print Assumptions C03_crash_recovers_prefix.
+
+(* recovery never fails once something was committed and never falls back past the newest
+   committed record *)
+Theorem C03_recover_succeeds : forall evs d,
+  drun dinit evs = Some d -> d_bolt d <> [] ->
+  forall d1, dstep d DCrash = Some d1 ->
+  exists n rr d2, newest (d_bolt d) = Some n /\ rec_root (d_segdocs d) (br_segs n) = Some rr
+    /\ dstep d1 DRecover = Some d2
+    /\ root (d_core d2) = rr /\ internal (d_core d2) = br_int n /\ epoch (d_core d2) = br_epoch n
+    /\ d_bolt d2 = d_bolt d.
+Proof. exact recover_succeeds. Qed.
+Print Assumptions C03_recover_succeeds.
+
+(* every acknowledged batch is covered by the newest committed record, in every reachable state
+   (up or down) of a history without rollbacks *)
+Theorem C03_acked_survive : forall evs d,
+  no_rollback evs = true -> drun dinit evs = Some d ->
+  forall k, In k (d_acked d) -> (k <= covered d)%nat.
+Proof. exact acked_survive. Qed.
+Print Assumptions C03_acked_survive.
+
+Theorem C03_acked_in_recovered_prefix : forall evs d d1 d2,
+  no_rollback evs = true -> drun dinit evs = Some d ->
+  dstep d DCrash = Some d1 -> dstep d1 DRecover = Some d2 ->
+  exists n, (forall k, In k (d_acked d) -> (k <= n)%nat) /\ (n <= length (eff evs))%nat
+    /\ forall id, root_lookup (root (d_core d2)) id = replay (firstn n (eff evs)) id.
+Proof. exact acked_in_recovered_prefix. Qed.
+Print Assumptions C03_acked_in_recovered_prefix.
+
+(* files no committed record names may be present, absent or garbage at recovery *)
+Theorem C03_garbage_tolerant : forall evs d d1 d2 fs,
+  drun dinit evs = Some d ->
+  dstep d DCrash = Some d1 -> dstep d1 DRecover = Some d2 ->
+  (forall id, (exists b, In b (d_bolt d1) /\ In id (named_by b)) -> (In id fs <-> In id (d_files d1))) ->
+  exists d2', dstep (with_files d1 fs) DRecover = Some d2'
+    /\ root (d_core d2') = root (d_core d2)
+    /\ (forall id, root_lookup (root (d_core d2')) id = replay (firstn (covered d) (eff evs)) id)
+    /\ (forall f, In f (d_files d2') <-> In f (d_files d2)).
+Proof. exact garbage_tolerant. Qed.
+Print Assumptions C03_garbage_tolerant.
+
+(* after any history — including any number of crashes, recoveries and rollbacks — the running
+   index is the replay of the batches in effect, each document live at most once (C01 again) *)
+Theorem C03_recover_then_continue : forall evs d,
+  drun dinit evs = Some d -> d_up d = true ->
+  Inv (d_core d)
+  /\ (forall id, root_lookup (root (d_core d)) id = replay (eff evs) id)
+  /\ (forall id, (root_live_copies (root (d_core d)) id <= 1)%nat)
+  /\ d_batches d = length (eff evs).
+Proof. exact recover_then_continue. Qed.
+Print Assumptions C03_recover_then_continue.
+
+Theorem C03_invariant_reachable : forall evs d,
+  drun dinit evs = Some d -> DInv (eff evs) d.
+Proof. exact reachable_DInv. Qed.
+Print Assumptions C03_invariant_reachable.
+
+Theorem C03_recovered_state_invariant : forall evs d d1,
+  drun dinit evs = Some d -> dstep d DRecover = Some d1 ->
+  DInv (firstn (covered d) (eff evs)) d1.
+Proof. exact recovered_state_DInv. Qed.
+Print Assumptions C03_recovered_state_invariant.
+
+(* with rollbacks: what is covered only grows between rollbacks, and every batch acknowledged
+   since the last rollback is covered (only a rollback can discard an acknowledged batch) *)
+Theorem C03_acked_since_rollback_survive : forall pre post d0 d,
+  drun dinit pre = Some d0 -> no_rollback post = true -> drun d0 post = Some d ->
+  (covered d0 <= covered d)%nat
+  /\ exists new, d_acked d = new ++ d_acked d0 /\ forall k, In k new -> (k <= covered d)%nat.
+Proof. exact acked_since_rollback_survive. Qed.
+Print Assumptions C03_acked_since_rollback_survive.
+
+(* the segment registry agrees with every segment of the root *)
+Theorem C03_segdocs_consistent : forall evs d,
+  drun dinit evs = Some d ->
+  forall s, In s (root (d_core d)) -> assocZ (sid s) (d_segdocs d) = Some (sdocs s).
+Proof. exact segdocs_consistent. Qed.
+Print Assumptions C03_segdocs_consistent.
+
+(* no_name_reuse (I6), the part that holds: a freshly allocated segment id is not registered, not
+   named by a committed record or the open transaction, not in the root, not a merge output.
+   (Not provable: "not the name of a file on disk" — DFileWritten accepts unallocated ids.) *)
+Theorem C03_no_name_reuse_partial : forall evs d newsid b io d',
+  drun dinit evs = Some d ->
+  dstep d (DCore (EIntroduce newsid b io)) = Some d' -> batch_updates b <> [] ->
+  ~ In newsid (map fst (d_segdocs d))
+  /\ (forall r, In r (d_bolt d) -> ~ In newsid (named_by r))
+  /\ (forall r, d_tx d = Some r -> ~ In newsid (named_by r))
+  /\ ~ In newsid (map sid (root (d_core d)))
+  /\ ~ In newsid (inflight_news (d_core d)).
+Proof. exact no_name_reuse_partial. Qed.
+Print Assumptions C03_no_name_reuse_partial.
+
+(* the enabling conditions of DPrepare are satisfiable in every running state without an open
+   transaction: the persister can always write down the current root *)
+Theorem C03_prepare_current_root_enabled : forall evs d,
+  drun dinit evs = Some d -> d_up d = true -> d_tx d = None ->
+  dstep d (DPrepare (mkBrec (epoch (d_core d))
+                            (map (fun s => (sid s, sdel s)) (root (d_core d)))
+                            (internal (d_core d)))) <> None.
+Proof. exact prepare_current_root_enabled. Qed.
+Print Assumptions C03_prepare_current_root_enabled.
